@@ -38,7 +38,7 @@ package ice
 //@ func (*controlledSelector).shouldAcceptNomination
 //@   props C20
 //@   modifies s.lastNomination
-//@   ensures accepted-only-if-greater-than-every-value-accepted-before: result && old(s.lastNomination) != nil ==> nominationValue != nil && *nominationValue > old(*s.lastNomination)
+//@   ensures a-value-is-accepted-only-if-greater-than-every-value-accepted-before: result && nominationValue != nil && old(s.lastNomination) != nil ==> *nominationValue > old(*s.lastNomination)
 //@   ensures plain-nomination-accepted-while-no-value-was-accepted: nominationValue == nil && old(s.lastNomination) == nil ==> result
 //@   ensures plain-nomination-leaves-the-accepted-value: nominationValue == nil ==> s.lastNomination == old(s.lastNomination)
 //@   ensures first-value-accepts: nominationValue != nil && old(s.lastNomination) == nil ==> result
@@ -53,8 +53,9 @@ package ice
 //@   ensures none-selected: selectedPair == nil ==> result
 //@   ensures same-pair: selectedPair != nil && selectedPair == pair ==> !result
 //@   ensures C20 renomination-ignores-priority: selectedPair != nil && selectedPair != pair && nominationValue != nil ==> result
-//@   ensures C03 priority-guard: selectedPair != nil && selectedPair != pair && nominationValue == nil && (!s.agent.lite || s.agent.enableUseCandidateCheckPriority) ==> result == (selectedPair.priority() < pair.priority())
-//@   ensures no-priority-check: selectedPair != nil && selectedPair != pair && nominationValue == nil && !(!s.agent.lite || s.agent.enableUseCandidateCheckPriority) ==> result
+//@   ensures C20 C03 a-plain-nomination-never-moves-the-selection-once-a-value-was-accepted: selectedPair != nil && nominationValue == nil && s.lastNomination != nil ==> !result
+//@   ensures C03 priority-guard: selectedPair != nil && selectedPair != pair && nominationValue == nil && s.lastNomination == nil && (!s.agent.lite || s.agent.enableUseCandidateCheckPriority) ==> result == (selectedPair.priority() < pair.priority())
+//@   ensures no-priority-check: selectedPair != nil && selectedPair != pair && nominationValue == nil && s.lastNomination == nil && !(!s.agent.lite || s.agent.enableUseCandidateCheckPriority) ==> result
 
 //@ func (*controllingSelector).HandleSuccessResponse
 //@   props C03 C02 C20 C04
@@ -109,7 +110,7 @@ package ice
 //@   site store state#1 assert C03 succeeded-only-after-matched-transaction: s.agent.gTxOK && s.agent.gSymOK && object == pair && pair != nil && value == pairSucceeded
 //@   site call setSelectedPair#0 assert C03 selects-only-nominated-valid: s.agent.gTxOK && s.agent.gSymOK && pair.nominateOnBindingSuccess && arg1 == pair && pair.state == pairSucceeded
 //@   site call setSelectedPair#1 assert C20 valued-deferred-nomination-is-the-latest: pair.nominationValueOnBindingSuccess != nil && s.lastNomination != nil && *pair.nominationValueOnBindingSuccess == *s.lastNomination
-//@   site call setSelectedPair#2 assert C20 a-parked-plain-nomination-never-overrides-an-accepted-value: s.lastNomination == nil
+//@   site call setSelectedPair#2 assert C20 a-parked-plain-nomination-never-overrides-an-accepted-value: selectedPair == nil || s.lastNomination == nil
 //@   site call setSelectedPair#2 assert C03 deferred-priority-guard: pair.nominationValueOnBindingSuccess == nil && (selectedPair == nil || (selectedPair != pair && (!(!s.agent.lite || s.agent.enableUseCandidateCheckPriority) || selectedPair.priority() <= pair.priority())))
 //@   ensures C02 unknown-transaction-changes-nothing-else: !s.agent.gTxOK ==> unchangedExcept("H_ice.Agent.gTxOK", "H_ice.Agent.gSymOK", "H_ice.Agent.pendingBindingRequests*", "H_ice.bindingRequest.*", "E_*")
 //@   ensures C02 asymmetric-changes-nothing-else: s.agent.gTxOK && !s.agent.gSymOK ==> unchangedExcept("H_ice.Agent.gTxOK", "H_ice.Agent.gSymOK", "H_ice.Agent.pendingBindingRequests*", "H_ice.bindingRequest.*", "E_*")
